@@ -543,7 +543,8 @@ func runC11(e *env) {
 			}
 			got[fmt.Sprintf("%d|%s|%s|%s|%s", pe.id, pe.v, pe.msg.Ctxt, pe.msg.Id, pe.msg.IdPlural)]++
 		}
-		if !c11SameCounts(want, got) {
+		// as sets: an extractor that writes one entry per message id instead of one per use lists the same messages
+		if !c11SameKeys(want, got) {
 			c11Fail(e, hx.Violation{Kind: "oracle", What: "the extracted POT does not list the bundle's messages (id, var, msgctxt, msgid, msgid_plural)", Case: rp,
 				Expected: c11Keys(want), Observed: c11Keys(got)}, map[bool]string{true: "empty-plural-case"}[hasEmptyCase])
 		}
@@ -573,11 +574,26 @@ func runC11(e *env) {
 		for id := range byID {
 			inPartial[id] = e.rng.Bool()
 		}
+		hasPlural := false
+		for _, m := range msgs {
+			hasPlural = hasPlural || (m.Plural && !m.has("empty"))
+		}
 		for _, kind := range kinds {
 			kdir := filepath.Join(dir, kind)
 			os.MkdirAll(kdir, 0o755)
 			var cats []*c11Cat
-			for _, loc := range locales {
+			locs := locales
+			if hasPlural && (kind == "identity" || kind == "reversed") {
+				// catalogues whose Plural-Forms header disagrees with the library's rule for their name:
+				// all of them for the hand-written bundles, one (in rotation) for a generated bundle
+				locs = append([]c11Locale{}, locales...)
+				if bi < len(corpus) {
+					locs = append(locs, c11Disagree...)
+				} else {
+					locs = append(locs, c11Disagree[bi%len(c11Disagree)])
+				}
+			}
+			for _, loc := range locs {
 				translated := func(m *c11Msg) bool {
 					if m.has("empty") {
 						return false
@@ -592,7 +608,7 @@ func runC11(e *env) {
 				var ents []string
 				nents := 0
 				pf.Header = map[string][]string{"Language": {loc.Name}, "Content-Type": {"text/plain; charset=UTF-8"}}
-				if e.rng.Bool() {
+				if e.rng.Bool() || c11IsDisagree(loc.Name) {
 					pf.Header["Plural-Forms"] = []string{loc.Header}
 				}
 				for _, pe := range entries {
@@ -697,8 +713,8 @@ func runC11(e *env) {
 			}
 			for _, c := range cats {
 				ask := c.loc.Name
-				if e.rng.Chance(25) {
-					ask = map[string]string{"ja": "ja_JP", "en": "en_US", "ru": "ru_RU", "fr": "fr_CA", "cs": "cs_CZ"}[c.loc.Name]
+				if regional, ok := map[string]string{"ja": "ja_JP", "en": "en_US", "ru": "ru_RU", "fr": "fr_CA", "cs": "cs_CZ"}[c.loc.Name]; ok && e.rng.Chance(25) {
+					ask = regional
 				}
 				bun := prov.Bundle(ask)
 				if bun == nil {
@@ -762,7 +778,7 @@ func runC11(e *env) {
 						}
 						c11Fail(e, hx.Violation{Kind: "oracle", What: what, Case: crp, Expected: hx.Q(x.out) + " error=" + hx.Q(x.err), Observed: hx.Q(o.out) + " error=" + hx.Q(o.err)}, key)
 					}
-					if c.kind == "identity" && c.loc.Name == "en" && !o.same(B.base[di]) {
+					if c.kind == "identity" && c.loc.Rule == 1 && !o.same(B.base[di]) {
 						c11Fail(e, hx.Violation{Kind: "oracle", What: "the identity translation does not render byte for byte what rendering without a catalogue does", Case: crp,
 							Expected: hx.Q(B.base[di].out) + " error=" + hx.Q(B.base[di].err), Observed: hx.Q(o.out) + " error=" + hx.Q(o.err)}, attr(c.keys))
 					}
@@ -889,7 +905,7 @@ func runC11(e *env) {
 					c11Fail(e, hx.Violation{Kind: "oracle", What: "Go and JavaScript agree on the catalogue-free equivalent and disagree with the " + c.kind + " catalogue", Case: crp,
 						Expected: "go: " + hx.Q(gx.out) + " error=" + hx.Q(gx.err), Observed: "js: " + hx.Q(j.out) + " error=" + hx.Q(j.err)}, key)
 				}
-				if c.kind == "identity" && c.loc.Name == "en" && !agree(jb, j) {
+				if c.kind == "identity" && c.loc.Rule == 1 && !agree(jb, j) {
 					c11Fail(e, hx.Violation{Kind: "oracle", What: "JavaScript: the identity translation does not render what the code generated without a catalogue renders", Case: crp,
 						Expected: hx.Q(jb.out) + " error=" + hx.Q(jb.err), Observed: hx.Q(j.out) + " error=" + hx.Q(j.err)}, key)
 				}
@@ -914,12 +930,12 @@ func c11Head(s string, n int) string {
 	return s
 }
 
-func c11SameCounts(a, b map[string]int) bool {
+func c11SameKeys(a, b map[string]int) bool {
 	if len(a) != len(b) {
 		return false
 	}
-	for k, v := range a {
-		if b[k] != v {
+	for k := range a {
+		if b[k] == 0 {
 			return false
 		}
 	}
